@@ -727,3 +727,43 @@ def o_inflight_failure(case, obs):
                     j, "panics" if "panic" in case["tags"] else "sends to a dropped mailbox", res, want)
             return None
     return None
+
+
+def o_model_periodic(case, obs):
+    """C10 (family gen_periodic_model): each periodic series armed by the model on itself fires exactly once at
+    first + k*period for every such time up to the time reached, in that order, whatever the partition."""
+    series = case.get("meta", {}).get("series")
+    if not series:
+        return None
+    if any(kind(o[0]) in FATAL or o[0] == "noinit" for o in obs):
+        return None
+    t_end = obs[-1][1]
+    got = {}
+    for j, (res, t, es) in enumerate(obs):
+        for e in es:
+            f = e.split(":")
+            if f[0] == "H" and int(f[2]) in (0, 1):
+                got.setdefault((int(f[2]), int(f[3])), []).append((int(f[4]), j, t))
+    for inp, pay, d, p in series:
+        want = list(range(d, t_end + 1, p))
+        have = [x[0] for x in got.get((inp, pay), [])]
+        if have != want:
+            return "periodic series (input %d, payload %d, first %d, period %d) fired at %s up to time %d, expected %s" % (inp, pay, d, p, have[:30], t_end, want[:30])
+        for (tt, j, tcmd) in got.get((inp, pay), []):
+            if tt > tcmd:
+                return "occurrence at %d of series (input %d) ran in a command that ended at time %d" % (tt, inp, tcmd)
+    # every occurrence due at or before the time a command ends has run when that command returns
+    fired_by = {}
+    for j, (res, t, es) in enumerate(obs):
+        for e in es:
+            f = e.split(":")
+            if f[0] == "H" and int(f[2]) in (0, 1):
+                fired_by.setdefault((int(f[2]), int(f[3]), int(f[4])), j)
+    for j, (res, t, es) in enumerate(obs):
+        if j == 0 or case["cmds"][j - 1][0] not in ("st", "su"):
+            continue
+        for inp, pay, d, p in series:
+            for tt in range(d, t + 1, p):
+                if fired_by.get((inp, pay, tt), 10**9) > j:
+                    return "cmd %d returned at time %d before the occurrence at %d of the series (input %d, period %d) had run" % (j - 1, t, tt, inp, p)
+    return None
